@@ -39,3 +39,23 @@ Definition rawext_layout (nh : N) (payload : bytes) : bytes :=
    Version = 6; first word = version * 2^28 + traffic class * 2^20 + flow label. *)
 Definition ipv6_layout (tc fl pl nh hop : N) (src dst : bytes) : bytes :=
   field 4 (6 * 268435456 + tc * 1048576 + fl) ++ field 2 pl ++ [nh; hop] ++ src ++ dst.
+
+(* IEEE 802.3 / Ethernet II frame header: destination (6), source (6), EtherType (2) *)
+Definition eth_layout (dst src : bytes) (et : N) : bytes := dst ++ src ++ field 2 et.
+
+(* IEEE 802.1Q tag after the TPID: TCI = | PCP (3) | DEI (1) | VID (12) |, then the
+   EtherType of the encapsulated frame *)
+Definition vlan_layout (pcp : N) (dei : bool) (vid et : N) : bytes :=
+  field 2 (pcp * 8192 + bit dei * 4096 + vid) ++ field 2 et.
+
+(* LINKTYPE_LINUX_SLL (tcpdump.org/linktypes/LINKTYPE_LINUX_SLL.html):
+   packet type (2) | ARPHRD_ type (2) | link-layer address length (2) | link-layer address (8) | protocol type (2) *)
+Definition sll_layout (pt hrd alen : N) (addr : bytes) (proto : N) : bytes :=
+  field 2 pt ++ field 2 hrd ++ field 2 alen ++ addr ++ field 2 proto.
+
+(* RFC 826 packet format:
+   hardware address space (2) | protocol address space (2) | hardware address length (1) |
+   protocol address length (1) | opcode (2) | sender hardware address | sender protocol address |
+   target hardware address | target protocol address *)
+Definition arp_layout (hrd pro op : N) (sha spa tha tpa : bytes) : bytes :=
+  field 2 hrd ++ field 2 pro ++ [len sha; len spa] ++ field 2 op ++ sha ++ spa ++ tha ++ tpa.
